@@ -149,12 +149,13 @@ be abandoned -/
 def abandonSet (expired : List UInt32) (q : List SRec) : List (UInt16 × UInt16) :=
   (q.filter (fun r => !r.acked && !r.abandoned && shouldAbandon expired r)).map (fun r => (r.sid, r.ssn))
 
-/-- second pass: *every* record carrying one of those keys is abandoned — acked ones included, and for
-an unordered channel (SSN always 0) every record of the stream -/
+/-- second pass: every *partially reliable* record carrying one of those keys is abandoned — acked
+ones included, and for an unordered channel (SSN always 0) every PR record of the stream -/
 def abandonMark (set : List (UInt16 × UInt16)) : List SRec → Nat → List SRec × Nat
   | [], flight => ([], flight)
   | r :: rest, flight =>
-    if set.contains (r.sid, r.ssn) then
+    -- only records that are partially reliable themselves (fix: the DCEP OPEN / ACK share SSN 0 with the first message)
+    if (r.maxRetransmits.isSome || r.hasExpiry) && set.contains (r.sid, r.ssn) then
       let x := abandonMark set rest (if r.inFlight then flight - r.len else flight)
       ({ r with abandoned := true, needsRetransmit := false, inFlight := false } :: x.1, x.2)
     else
